@@ -221,6 +221,7 @@ PRE_IDIOMS = [
 GENERIC_CALLRULES = [
     CallRule(r'\bstd::bind(?=\s*\(\s*std::move)', {2: 'bind_owned_tok($1, $2, 0)', 3: 'bind_owned_tok($1, $2, $3)'}, name='bind-owned'),
     CallRule(r'(?<![\w.>:])post', {2: 'post_tok($2)'}, name='post(ctx, closure)'),
+    CallRule(r'(?<![\w.>:])dispatch', {2: 'dispatch_tok($2)'}, name='dispatch(ctx, closure)'),
 ]
 
 
